@@ -48,7 +48,11 @@ MARKERS = ['ZQXJV', 'KWYBG', 'QJZKX', 'VXQZJ', 'NQZXV', 'SQZXV', 'EQZXV',
            '#4471', '(160.00)', '{77349}']
 MODES = ['', '', 'segment', 'sec_within', 'segment,sec_within',
          'sec_colon_required', 'sec_colon_cautious', 'TRS_desc', 'desc_STR',
-         'S_desc_TR', 'TR_desc_S', 'copy_all']
+         'S_desc_TR', 'TR_desc_S', 'copy_all',
+         # segmenting with a dictated layout (each chunk must fit it -- or
+         # end up flagged)
+         'segment,TRS_desc', 'segment,desc_STR', 'segment,S_desc_TR',
+         'segment,TR_desc_S,sec_within']
 
 # The harness' own idea of a principal-meridian designation: a Twp/Rge,
 # separators (line breaks included), an optional 'of the', the NAME of the
@@ -241,6 +245,16 @@ def gen_case(rng):
                             'subject to easements of record'])
         text = f"{extra}, {text}" if rng.random() < 0.5 else f"{text}, {extra}"
         fam = 'extra-text'
+    elif r < 0.585:
+        # no Twp/Rge at all / the section named before the Twp/Rge
+        if rng.random() < 0.5:
+            for a, b, k in sorted(base['spans'], reverse=True):
+                if k == 'twprge':
+                    text = text[:a] + text[b:]
+            fam = 'no-twprge'
+        else:
+            text = f"Section {rng.randint(1, 36)}, {text}"
+            fam = 'section-first'
     elif r < 0.62:
         j = rng.choice([', ', ' of the ', ', '])
         pm = rng.choice(['5th P.M.', 'Fifth Principal Meridian', '5 PM'])
